@@ -29,7 +29,7 @@ CLAIMED = {
              "affine/effect dataflow (E2) against the SBE encoding table + E4"),
     "C03": E("other", "Every level-end, stride and entry address in the library is an affine form over *wire* blockLength/numInGroup "
              "symbols (never a compile-time constant); in the generator the compiled block length reaches only header fillers and "
-             "block_length() traits.", "DESIGN.md 3/C03", TB, "affine spec rows over E2 summaries + who-may-read def-use rule (G-FLOW c)"),
+             "block_length() traits.", "DESIGN.md 3/C03", TB, "affine spec rows over E2 summaries + who-may-read def-use rule (G-FLOW c) + E4 cursor-primitive rule on generated accessors"),
     "C04": E("other", "The 48-row cursor protocol table (5 kinds x 10 primitives) is compared, as equalities of affine normal forms, "
              "with every instantiation: access address, value, cursor-after, wrong-cursor assertion present/absent, size check on "
              "the accessed base. Call-sequence product space not explored.", "DESIGN.md 3/C04", TB,
@@ -39,7 +39,7 @@ CLAIMED = {
              "with the documented parameter list.", "DESIGN.md 3/C05", TB + "Numeric equality on concrete messages not decided.",
              "interval arithmetic over C++ conversion rules (R-INT) + E2 rows + E4 polynomial comparison"),
     "C06": E("other", "Read-before-validate over all E2 paths of size_bytes_checked for the corpus messages (no-assert configuration), "
-             "exactness on loop-free valid paths, rows of validate_and_subtract and of the visitor callbacks, structural work bound.",
+             "exactness on loop-free valid paths, rows of validate_and_subtract and of the visitor callbacks, inductive state rows for the visitor's group_block_length (set / restored / single writer), structural work bound.",
              "DESIGN.md 3/C06", TB + "Reads inside entry loops are undecided (counted); 'valid exactly when' over all buffers not decided. "
              "Known findings D10 (replayed with ASan).", "path-sensitive affine/effect dataflow with accounting facts (read-before-validate)"),
     "C07": E("other", "Rule families over the generator for all schemas (template binding, free text into literals, literal tables, "
@@ -48,15 +48,15 @@ CLAIMED = {
              "Compilability of schemas outside the corpus beyond the rule families is not decided. Known findings: name capture (Byte/args/last).",
              "template lint + def-use taint on AST facts, compile witnesses"),
     "C08": E("other", "Each of the 65 throw sites is dominated by exactly its hand-confirmed guard (strictness included); traversal "
-             "reaches every position; exit status mapping; the 24 valid boundary schemas are accepted.", "DESIGN.md 3/C08",
+             "reaches every position; memo caches belong to one validator (G-CACHE); required-rule table (G-REQ: known gaps D13/D15/D17); exit status mapping; the 24 valid boundary schemas are accepted.", "DESIGN.md 3/C08",
              "Acceptance of every rule-abiding schema in general is not decided.",
-             "structural dominance + normalised guard table (G-GUARD), call-graph requirements (G-CALL)"),
+             "structural dominance + normalised guard table (G-GUARD), call-graph requirements (G-CALL), cache-exclusivity shape rule (G-CACHE)"),
     "C09": E("other", "Every enumerated hazard call site has a dominating guard or a recorded invariant linked to a live validator "
              "check; format strings are literals with bound fields; main covers std::exception; include recursion rule (known "
              "finding).", "DESIGN.md 3/C09", "UB in general, pugixml internals, memory exhaustion, other hang shapes not decided.",
-             "hazard enumeration with resolved callees + guard-or-invariant rule (G-HAZ), template lint (G-TPL)"),
+             "hazard enumeration with resolved callees + guard-or-invariant rule (G-HAZ), template lint (G-TPL), cache-exclusivity shape rule (G-CACHE)"),
     "C10": E("other", "On every path of every public operation each buffer access is preceded by an asserted bound that covers exactly "
-             "the accessed bytes on the accessed base (R-CHK); configuration truth table of SBEPP_SIZE_CHECKS_ENABLED.",
+             "the accessed bytes on the accessed base (R-CHK); a data-dependent move of a view's own ptr is covered by an asserted ptr' <= end (R-CHK.step); configuration truth table of SBEPP_SIZE_CHECKS_ENABLED.",
              "DESIGN.md 3/C10", TB + "Operation sequences follow operation-by-operation only. Known findings: length narrowing in data assign*.",
              "path-sensitive affine/effect dataflow with dominance + linear implication (R-CHK)"),
     "C11": E("proof", "Type checker as prover: generated negative witnesses for every mutating call form of every entity, conversion "
@@ -83,7 +83,7 @@ CLAIMED = {
              "fields/values; sibling rule on header-member lookups.", "DESIGN.md 3/C17", "Scope: build set + corpus schemas.",
              "E2 summaries of generated fillers vs independent XML model"),
     "C18": E("translation_validation", "Every trait of every entity of 24 schemas equals the XML model; tag predicates and traits_tag "
-             "round trips by type-level witnesses.", "DESIGN.md 3/C18", "Scope: build set + corpus schemas. min/max/null traits are covered by C16.",
+             "round trips by type-level witnesses; min/max/null limits equal the XML attribute or the SBE default (generated code and generator tables).", "DESIGN.md 3/C18", "Scope: build set + corpus schemas.",
              "AST extraction of trait specialisations vs independent XML model + static_assert witnesses"),
     "C19": E("translation_validation", "Generated visit_children bodies are ||-chains of exactly the members in schema order with own "
              "accessor and tag; enum/set visits; library early-stop loop; by-tag forwarding.", "DESIGN.md 3/C19",
